@@ -19,7 +19,7 @@ PROPERTY = "C19"
 
 META = {
     "bounds": {
-        "quick": "17 probes x every single history item (24) + 120 VERIF_SEED-drawn histories of 2-3 items; history values hv (16 bit) and probe value pv (16 bit) symbolic; each job in a fresh process, probe run before and after the history; 8 probes with hand-derived expected output x every history item with the history run first (process never saw the probe)",
+        "quick": "18 probes x every single history item (25) + 120 VERIF_SEED-drawn histories of 2-3 items; history values hv (16 bit) and probe value pv (16 bit) symbolic; each job in a fresh process, probe run before and after the history; 8 probes with hand-derived expected output x every history item with the history run first (process never saw the probe)",
         "thorough": "15 probes x every history of <= 2 items + 300 drawn histories of 3",
     },
     "outside": ["histories longer than 3 assemblies", "state outside the Python process (files are virtual)"],
@@ -48,6 +48,8 @@ HISTORY = {
     # the built-in LoROM geometry re-declared by hand, spelling out writable=0 / writable=1, used at the probes' addresses
     "custom-map-writable0": ("low", ".map identifier=1 bank_range=0x00, 0x6f addr_range=0x8000, 0xffff mask=0x8000 writable=0\n*=0x8000\nm:\n.db hv, 1, 2, 3, 4, 5, 6, 7, 8, 9\n.dl m\n*=0x018000\n.db 1\n", {}),
     "custom-map-writable1": ("low", ".map identifier=1 bank_range=0x00, 0x6f addr_range=0x8000, 0xffff mask=0x8000 writable=1\n*=0x8000\nm:\n.db hv, 1, 2, 3, 4, 5, 6, 7, 8, 9\n.dl m\n*=0x018000\n.db 1\n", {}),
+    # the very file the probes include (same name, same bytes), included with other deltas
+    "same-ips-other-delta": ("low", "*=0x8000\n.include_ips 'p.ips', 0x40\n.include_ips 'p.ips', 0 - 0x10\n", {"p.ips": b"PATCH\x00\x01\x00\x00\x02xyEOF"}),
     "defs-macro": ("low", "*=0x8000\n.macro m(a) {\n.db a, 0x99\n}\n.macro w(c) {\n{{c}}\n}\nm(hv)\nw({\nnop\n})\n", {}),
     "defs-symbols": ("low", "*=0x9000\nsym = hv\nx := hv + 1\nstart:\nloop:\nl:\n.dw sym, x\n.scope ns {\nl:\n}\n", {}),
     "defs-table": ("low", "*=0x8000\n.table 'h.tbl'\n.text 'ab'\n.ascii 'ab'\nt_end:\n.dl t_end\n", {"h.tbl": "7f7f7f=a\n7e=b\n"}),
@@ -74,6 +76,7 @@ PROBES = {
     "own-incbin": ("low", "*=0x8000\n.incbin 'p.bin'\nafter:\n.dl after, p_bin, p_bin__size\n", {"p.bin": b"\x01\x02\x03"}),
     "own-include": ("low", "*=0x8000\n.include 'p.s'\nafter:\n.dl after\n", {"p.s": "lda.w #pv\n"}),
     "own-ips": ("low", "*=0x8000\n.db pv\n.include_ips 'p.ips', 0\n", {"p.ips": b"PATCH\x00\x01\x00\x00\x02xyEOF"}),
+    "own-ips-delta": ("low", "*=0x8000\n.db pv\n.include_ips 'p.ips', 0 - 0x20\n", {"p.ips": b"PATCH\x00\x01\x00\x00\x02xyEOF"}),
     "high": ("high", "*=0xC10000\nh:\n.dw pv\n.dl h\n", {}),
     # positions in work RAM under HiROM (refused / relocated): the answer may not depend on which banks were looked up before
     "high-ram-refused": ("high", "*=0x7E2000\n.db pv\n", {}),
@@ -95,6 +98,7 @@ EXPECT = {
     "own-include": [(0, [0xA9, "pv.lo", "pv.hi"] + _le3(0x8003))],
     "own-ips": [(0x100, [ord("x"), ord("y")]), (0, ["pv.lo"])],
     "own-table": [(0, [1, 2] + _le3(0x8002))],
+    "own-ips-delta": [(0xE0, [ord("x"), ord("y")]), (0, ["pv.lo"])],
     "simple": [(0, [0xA9, "pv.lo", "pv.hi", 0xCA, 0xD0, 0xFD] + _le3(0x8000) + _le3(0x8003))],
     "high": [(0x10000, ["pv.lo", "pv.hi"] + _le3(0xC10000))],
     "own-map": [(0, _le3(0x108000))],
@@ -116,6 +120,8 @@ def jobs(tier, seed):
     for pn in EXPECT:
         for h in items:
             out.append({"id": f"{pn}/history-first/{h}", "probe": pn, "history": [h], "order": "history-first"})
+    # one Program object used for two assemblies: the second one, placed anywhere (`*= q`, q symbolic), comes out as from a fresh object
+    out.append({"id": "same-program-object/second-assembly-anywhere", "probe": "simple", "history": [], "order": "reuse"})
     rnd = random.Random(seed * 131 + 5)
     for k in range(120 if tier == "quick" else 300):
         n = rnd.choice([2, 3]) if tier == "quick" else 3
@@ -197,6 +203,20 @@ def run(spec, cx):
     pv = cx.int("pv", 0, 0xFFFF)
     hv = cx.int("hv", 0, 0xFFFF)
     rom, src, files = PROBES[spec["probe"]]
+    if spec.get("order") == "reuse":
+        from oracles import layout as L
+
+        q = cx.int("q", 0, 0xFFFFFF)
+        g = L.GEOMS["low"]
+        cx.assume(z3.And(L.in_window(g, cx.t("q")), L.offset(g, cx.t("q")) + 16 < L.run_size(g, cx.t("q"))))
+        p = _program("low", {"pv": pv, "q": q})
+        w1, w2 = RecWriter(), RecWriter()
+        try:
+            e1 = p.assemble_string_with_emitter("*=0x8000\nr1:\n.db 1, 2, 3\n", "first.s", w1)
+            e2 = p.assemble_string_with_emitter("*= q\nr2:\n.dw pv\n.dl r2\n", "second.s", w2)
+        except Exception as e:  # noqa: BLE001
+            return (("raise", type(e).__name__, _text(e), []),)
+        return (("ok", w2.blocks, []) if e1 is None and e2 is None else ("error", e2 if e2 is not None else e1, None, w2.blocks),)
     if spec.get("order") == "history-first":
         for h in spec["history"]:
             run_history_item(h, {"hv": hv}, cx)
@@ -252,6 +272,19 @@ def _same(a, b):
 
 
 def check(spec, cx, out):
+    if spec.get("order") == "reuse":
+        from oracles import layout as L
+
+        r = out[0]
+        if r[0] != "ok" or len(r[1]) != 1:
+            return [("second-assembly-on-the-same-object", z3.BoolVal(False))]
+        a, d = r[1][0]
+        bs = blist(d)
+        q, pv = cx.t("q"), cx.t("pv")
+        want = [pv & 0xFF, (pv >> 8) & 0xFF, q & 0xFF, (q >> 8) & 0xFF, (q >> 16) & 0xFF]
+        if len(bs) != len(want):
+            return [("second-assembly-on-the-same-object", z3.BoolVal(False))]
+        return [("second-assembly-on-the-same-object", z3.And(bv(a) == L.offset(L.GEOMS["low"], q), *[x == y for x, y in zip(bs, want)]))]
     if spec.get("order") == "history-first":
         r = out[0]
         exp = EXPECT[spec["probe"]]
